@@ -25,7 +25,7 @@ def pySlice {α} (l : List α) (lo hi : Int) : List α :=
 def srcCmereIdx (starts ends : List Int) (minGap : Int) (margin : Nat) : Nat :=
   let n : Int := starts.length
   let m : Int := margin
-  if src_by_arm_candidate n m then
+  if src_by_arm_candidate m n then
     let gaps := ((pySlice starts (src_by_arm_starts_lo m) (src_by_arm_starts_hi m)).zip
                  (pySlice ends (src_by_arm_ends_lo m) (src_by_arm_ends_hi m))).map (fun p => p.1 - p.2)
     let idx := src_by_arm_idx (argmax gaps) m
@@ -48,7 +48,7 @@ theorem pySlice_pos_neg {α} (l : List α) (lo k : Nat) (hk : 0 < k) (h : lo + k
 /-! the generated fragments, each with the value the model uses (proved by arithmetic, not by `rfl`, so that an
     equivalent spelling of a fragment in the source keeps the tie green) -/
 
-theorem candidate_iff (n m : Int) : src_by_arm_candidate n m = true ↔ n > 2 * m + 1 := by
+theorem candidate_iff (m n : Int) : src_by_arm_candidate m n = true ↔ n > 2 * m + 1 := by
   unfold src_by_arm_candidate; simp only [decide_eq_true_eq]
   first | done | omega
 
@@ -80,7 +80,7 @@ theorem cmereIdx_is_source (starts ends : List Int) (hlen : ends.length = starts
   rw [v1, v2, v3, v4, v7]
   simp only [v5, v6, v8]
   by_cases hc : starts.length > 2 * m + 1
-  · have hc' : src_by_arm_candidate (starts.length : Int) (m : Int) = true := (candidate_iff _ _).mpr (by omega)
+  · have hc' : src_by_arm_candidate (m : Int) (starts.length : Int) = true := (candidate_iff _ _).mpr (by omega)
     rw [if_pos hc, hc']
     simp only [if_true]
     have s1 : pySlice starts ((m : Int) + 1) (-(m : Int)) =
@@ -107,7 +107,7 @@ theorem cmereIdx_is_source (starts ends : List Int) (hlen : ends.length = starts
         rw [Bool.eq_false_iff]; intro h; exact hs ((accept_iff _ _ _).mp h).2
       rw [if_neg hs, this]
       simp
-  · have hc' : src_by_arm_candidate (starts.length : Int) (m : Int) = false := by
+  · have hc' : src_by_arm_candidate (m : Int) (starts.length : Int) = false := by
       rw [Bool.eq_false_iff]; intro h; exact hc (by have := (candidate_iff _ _).mp h; omega)
     have ha : src_by_arm_accept 0 0 minGap = false := by
       rw [Bool.eq_false_iff]; intro h; exact ((accept_iff _ _ _).mp h).1 rfl
